@@ -48,6 +48,10 @@ RULE = ("corpus/C09 hand seeds first; join: 2-5 generated inputs (1-6 events "
         "its basin map back to the input; jointdms: 2-3 copies of the tdms "
         "fixtures of the dclab test suite under shuffled measurement "
         "prefixes (oracle only); "
+        "30-40% of the join/split/joinsplit cases run with "
+        "writer.CHUNK_SIZE_BYTES = 512..2048 and 4-40 events per input with "
+        "image (mask, trace) data, so that appended blocks straddle HDF5 chunk "
+        "boundaries (c-1, c, c+1 events); "
         "joinsplit: the parts of a split, renamed to words that are not in "
         "alphabetical order, joined in the order of the split; pysem: the Python "
         "semantics of Common/PyList.v (mutating loop, loop over a copy, str "
@@ -190,10 +194,22 @@ def gen_input(rng, names, n, date, tm, run, rate, logs=True):
                 logs=lg, sample=rng.choice(SAMPLES))
 
 
+CHUNK_BYTES = [512, 512, 1024, 2048]
+# event counts around multiples of the smallest HDF5 chunks that result
+# (image/mask: 54 B/event -> 10, 18, 37 events; trace: 24 B -> 21, 42, 85)
+CHUNKY_N = [4, 5, 9, 10, 11, 15, 17, 18, 19, 20, 21, 22, 25, 36, 37, 38]
+
+
 def gen_join_case(rng, thorough=False):
-    k = rng.choice([2, 2, 3, 3, 4, 5])
+    chunky = rng.random() < 0.3
+    k = rng.choice([2, 2, 3] if chunky else [2, 2, 3, 3, 4, 5])
     pool = [f for f in UNIVERSE if f not in NONSCALAR]
-    base = set(rng.sample(pool, rng.randint(3, 8)))
+    base = set(rng.sample(pool, rng.randint(2, 4) if chunky
+                          else rng.randint(3, 8)))
+    if chunky:
+        base.add("image")
+        if rng.random() < 0.5:
+            base.add("trace")
     for special in ("time", "frame", "index_online", "index"):
         if rng.random() < 0.45:
             base.add(special)
@@ -221,6 +237,8 @@ def gen_join_case(rng, thorough=False):
             names.discard(f)
             if f in PRECURSORS and rng.random() < 0.5:
                 names.update(PRECURSORS[f])
+        if chunky:
+            names.add("image")       # non-scalar data in every input
         if rng.random() < 0.2:
             names.add(rng.choice(pool))          # an extra innate feature
         if "time" not in names and "frame" in names:
@@ -232,7 +250,9 @@ def gen_join_case(rng, thorough=False):
                                  rng.choice(FRACS))
         if rng.random() < 0.03:
             tm = "%02d:59:59%s" % (rng.choice([0, 9, 23]), rng.choice(FRACS))
-        inputs.append(gen_input(rng, names, rng.randint(1, 6),
+        inputs.append(gen_input(rng, names,
+                                rng.choice(CHUNKY_N) if chunky
+                                else rng.randint(1, 6),
                                 rng.choice(DATES), tm, rng.choice(RUNS), rate))
     # ties: two or more inputs with the same date, time and run index (the
     # given order must be kept, whatever the file names are)
@@ -244,11 +264,15 @@ def gen_join_case(rng, thorough=False):
                              run=src["run"])
     for inp, nm in zip(inputs, gen_names(rng, k)):
         inp["fname"] = nm
-    return dict(kind="join", inputs=inputs)
+    case = dict(kind="join", inputs=inputs)
+    if chunky:
+        # small HDF5 chunks: appended blocks straddle chunk boundaries
+        case["chunk_bytes"] = rng.choice(CHUNK_BYTES)
+    return case
 
 
 def gen_split_case(rng, thorough=False):
-    n = rng.choice([1, 1, 2, 3, 4, 5, 6, 6, 7, 8, 9, 10, 12])
+    n = rng.choice([1, 1, 2, 3, 4, 5, 6, 6, 7, 8, 9, 10, 12, 21, 25])
     ks = [1, 2, 3, max(1, n - 1), n, n + 1, 2 * n] + \
         [d for d in range(1, n + 1) if n % d == 0]
     k = rng.choice(ks)
@@ -274,13 +298,21 @@ def gen_split_case(rng, thorough=False):
             inp["feats"]["image"][rng.randrange(1, n - 1)] = 0
     initial = rng.random() < 0.7
     final = rng.random() < 0.7
-    return dict(kind="split", input=inp, k=k, initial=initial, final=final)
+    case = dict(kind="split", input=inp, k=k, initial=initial, final=final)
+    if rng.random() < 0.3:
+        case["chunk_bytes"] = rng.choice(CHUNK_BYTES)
+    return case
 
 
 def gen_joinsplit_case(rng, thorough=False):
-    n = rng.choice([2, 3, 4, 5, 6, 7, 8, 9, 10])
-    k = rng.choice([1, 2, 2, 3, 3, max(1, n - 1), max(1, n // 2),
-                    rng.randint(1, n)])
+    chunky = rng.random() < 0.4
+    if chunky:
+        n = rng.choice([12, 19, 20, 21, 25, 30, 38, 40])
+        k = rng.choice([3, 7, 9, 10, 11, 13, 17, 19, 20, 21])
+    else:
+        n = rng.choice([2, 3, 4, 5, 6, 7, 8, 9, 10])
+        k = rng.choice([1, 2, 2, 3, 3, max(1, n - 1), max(1, n // 2),
+                        rng.randint(1, n)])
     names = set(rng.sample([f for f in UNIVERSE if f not in NONSCALAR],
                            rng.randint(2, 7)))
     for special in ("time", "frame", "index_online", "index"):
@@ -288,16 +320,21 @@ def gen_joinsplit_case(rng, thorough=False):
             names.add(special)
     if rng.random() < 0.25:
         names.add("image")
-    if rng.random() < 0.3:
+    if rng.random() < 0.3 or (chunky and rng.random() < 0.5):
         names.update(["mask", "contour"])
-    if rng.random() < 0.3:
+    if rng.random() < 0.3 or (chunky and rng.random() < 0.5):
         names.add("trace")
+    if chunky:
+        names.add("image")
     inp = gen_input(rng, names, n, rng.choice(DATES),
                     "12:00:%02d%s" % (rng.randint(0, 59), rng.choice(FRACS)),
                     rng.choice(RUNS), rng.choice(RATES_DYADIC_TIME))
     nparts = -(-n // k)
-    return dict(kind="joinsplit", input=inp, k=k,
+    case = dict(kind="joinsplit", input=inp, k=k,
                 rename=gen_names(rng, min(nparts, len(NAME_WORDS))))
+    if chunky:
+        case["chunk_bytes"] = rng.choice(CHUNK_BYTES)
+    return case
 
 
 # --------------------------------------------------------------------------
@@ -1105,21 +1142,33 @@ def exec_case(args):
     wd = os.path.join(base, "c%d" % os.getpid())
     shutil.rmtree(wd, ignore_errors=True)
     os.makedirs(wd)
+    from dclab.rtdc_dataset import writer as _writer
+    saved_chunk = _writer.CHUNK_SIZE_BYTES
     try:
-        if case["kind"] == "join":
-            return exec_join(case, wd)
-        if case["kind"] == "split":
-            return exec_split(case, wd)
-        if case["kind"] == "jointdms":
-            return exec_jointdms(case, wd)
-        return exec_joinsplit(case, wd)
+        if case.get("chunk_bytes"):
+            _writer.CHUNK_SIZE_BYTES = int(case["chunk_bytes"])
+        r = _exec_kind(case, wd)
+        if case.get("chunk_bytes") and r.get("tags") is not None:
+            r["tags"].append("chunk_bytes=%d" % case["chunk_bytes"])
+        return r
     except Exception as e:      # harness problem, not a judgement
         import traceback
         return dict(impl=None, coq=None, fn=None, fail=None, finding=None,
                     nontrivial=False, tags=["harness-error"],
                     harness_error="%r\n%s" % (e, traceback.format_exc()[-1500:]))
     finally:
+        _writer.CHUNK_SIZE_BYTES = saved_chunk
         shutil.rmtree(wd, ignore_errors=True)
+
+
+def _exec_kind(case, wd):
+    if case["kind"] == "join":
+        return exec_join(case, wd)
+    if case["kind"] == "split":
+        return exec_split(case, wd)
+    if case["kind"] == "jointdms":
+        return exec_jointdms(case, wd)
+    return exec_joinsplit(case, wd)
 
 
 def run_cases(cases, base, procs=None):
